@@ -6,6 +6,7 @@ import Gts.Lemmas.Normalize
 import Gts.Lemmas.Delete
 import Gts.Lemmas.Table
 import Gts.Model.Seq
+import Gts.Lemmas.Record
 namespace Gts.C04
 open Gts Loc
 
@@ -169,5 +170,35 @@ example : wf (compl (joined [ranged 1 3 true false, ranged 6 9 false true])) = t
     expandAbs (compl (joined [ranged 1 3 true false, ranged 6 9 false true])) 0 3 = false ∧
     normalizeAbs (expand (compl (joined [ranged 1 3 true false, ranged 6 9 false true])) 0 3) 10 = false := by
   decide
+
+/-! ### record level -/
+
+/-- the re-mapping does not depend on which representative of `n` modulo `L` is used -/
+theorem rotMap_emod (n L : Int) : rotMap (n % L) L = rotMap n L := by
+  funext x; simp [rotMap, Int.add_emod_emod]
+
+/-- **Rotate, record level**: for every `n` (any sign and magnitude) every feature of a non-empty
+record is present in the rotated record with unchanged key and qualifiers and a location
+denoting the same residues at `(x + n) mod L`, in the same order and strand (domain of the
+Normalize law and K2 guards as in `rotate_den_partial`). -/
+theorem rotate_feature_partial (s : Gts.Seq) (n : Int) (hL : 0 < s.len) (f : Feature) (hf : f ∈ s.feats)
+    (hw : wf f.loc = true) (hnn : nonneg f.loc = true)
+    (hok : normOk s.len (expand f.loc 0 (rotN n s.len)) = true)
+    (h1 : expandAbs f.loc 0 (rotN n s.len) = false)
+    (h2 : normalizeAbs (expand f.loc 0 (rotN n s.len)) s.len = false) :
+    ∃ f' ∈ (s.rotate n).feats, f'.key = f.key ∧ f'.props = f.props ∧
+      den f'.loc ≼ mapPos (rotMap n s.len) (den f.loc) := by
+  refine ⟨{ f with loc := (f.loc.expand 0 (rotN n s.len)).normalize s.len },
+    mem_of_perm_map (rotate_table_perm s n) hf, rfl, rfl, ?_⟩
+  have hr : 0 ≤ rotN n s.len := by rw [rotN_eq_emod n s.len hL]; exact Int.emod_nonneg _ (by omega)
+  have h := rotate_den_partial f.loc (rotN n s.len) s.len hL hr hw hnn hok h1 h2
+  have e : mapPos (rotMap (rotN n s.len) s.len) (den f.loc) = mapPos (rotMap n s.len) (den f.loc) := by
+    rw [rotN_eq_emod n s.len hL, rotMap_emod]
+  rw [e] at h
+  exact h
+
+/-- nothing is lost or added -/
+theorem rotate_feature_count (s : Gts.Seq) (n : Int) : (s.rotate n).feats.length = s.feats.length := by
+  simpa using (rotate_table_perm s n).length_eq
 
 end Gts.C04
